@@ -651,6 +651,83 @@ func execPogsAir(kind string, seed uint64) string {
 		if !reflect.DeepEqual(e, back) {
 			note("!round-trip")
 		}
+	case "embed2":
+		// the same schema field offered at two depths: the least nested Go field wins; a name clash deeper down must not
+		// disturb it (and is itself ignored)
+		type shallow struct{ Rating int64 }
+		type left struct {
+			A int64 `capnp:"rating"`
+		}
+		type right struct {
+			B int64 `capnp:"rating"`
+		}
+		type deep struct {
+			left
+			right
+		}
+		type outer struct {
+			shallow
+			deep
+			Name string
+		}
+		type outerRev struct {
+			deep
+			shallow
+			Name string
+		}
+		for variant := 0; variant < 2; variant++ {
+			_, seg, _ := capnp.NewMessage(capnp.SingleSegment(nil))
+			root, _ := verifxNewRootPlaneBase(seg)
+			want := int64(r.U64())
+			var err error
+			if variant == 0 {
+				err = pogs.Insert(verifxPlaneBaseTypeID, root.Struct, &outer{shallow: shallow{want}, deep: deep{left{4}, right{5}}, Name: "e"})
+			} else {
+				err = pogs.Insert(verifxPlaneBaseTypeID, root.Struct, &outerRev{shallow: shallow{want}, deep: deep{left{4}, right{5}}, Name: "e"})
+			}
+			if err != nil {
+				return "insert-error:" + err.Error()
+			}
+			if root.Rating() != want {
+				note(fmt.Sprintf("!least-nested-field-not-inserted-v%d", variant))
+			}
+			root.SetRating(want + 1)
+			var o outer
+			var orv outerRev
+			if variant == 0 {
+				err = pogs.Extract(&o, verifxPlaneBaseTypeID, root.Struct)
+				if err == nil && (o.shallow.Rating != want+1 || o.deep.left.A != 0 || o.deep.right.B != 0) {
+					note("!least-nested-field-not-extracted-v0")
+				}
+			} else {
+				err = pogs.Extract(&orv, verifxPlaneBaseTypeID, root.Struct)
+				if err == nil && (orv.shallow.Rating != want+1 || orv.deep.left.A != 0 || orv.deep.right.B != 0) {
+					note("!least-nested-field-not-extracted-v1")
+				}
+			}
+			if err != nil {
+				return "extract-error:" + err.Error()
+			}
+		}
+	case "big":
+		// one Insert / Extract that visits very many structs: the schema lookups must not run out of anything
+		n := 20000 + int(seed%3)*25000
+		z := &airZ{Which: 25}
+		for i := 0; i < n; i++ {
+			z.Zvec = append(z.Zvec, &airZ{Which: 8, U64: uint64(i)})
+		}
+		_, seg, _ := capnp.NewMessage(capnp.MultiSegment(nil))
+		root, _ := verifxNewRootZ(seg)
+		if err := pogs.Insert(verifxZTypeID, root.Struct, z); err != nil {
+			return "!insert-of-" + strconv.Itoa(n) + "-structs-failed:" + strings.ReplaceAll(err.Error(), " ", "_")
+		}
+		var back airZ
+		if err := pogs.Extract(&back, verifxZTypeID, root.Struct); err != nil {
+			return "!extract-of-" + strconv.Itoa(n) + "-structs-failed:" + strings.ReplaceAll(err.Error(), " ", "_")
+		}
+		if len(back.Zvec) != n || back.Zvec[n-1].U64 != uint64(n-1) {
+			note("!round-trip")
+		}
 	default:
 		return "bad-op"
 	}
@@ -673,8 +750,27 @@ func genC19(rec *lib.Rec, r *lib.Rng, thorough bool) {
 		}
 		rec.Op("M", fmt.Sprintf("pogs19 ins %d 0 %d %s %s %s", dw, discOff, strings.Join(fs, ","), which, strings.Join(vals, ",")), true)
 		if i%2 == 0 {
-			rec.Op("M", fmt.Sprintf("pogs19 ext %d 0 %d %s %s", dw, discOff, strings.Join(fs, ","), hex.EncodeToString(r.Bytes(dw*8))), true)
+			raw := r.Bytes(dw * 8)
+			// no NaNs (see above): make the exponent of every float field, after the default is XORed in, not all ones
+			for _, f := range fs {
+				p := strings.Split(f, ":")
+				off, _ := strconv.Atoi(p[1])
+				mask, _ := strconv.ParseUint(p[2], 10, 64)
+				switch p[0] {
+				case "f32":
+					// bit 23 (lowest exponent bit) of value = stored ^ mask must be 0
+					b := off*4 + 2
+					raw[b] = raw[b]&^0x80 | byte(mask>>16)&0x80
+				case "f64":
+					b := off*8 + 6
+					raw[b] = raw[b]&^0x10 | byte(mask>>48)&0x10
+				}
+			}
+			rec.Op("M", fmt.Sprintf("pogs19 ext %d 0 %d %s %s", dw, discOff, strings.Join(fs, ","), hex.EncodeToString(raw)), true)
 		}
-		rec.Op("S", "pogs19 air "+r.PickS("z", "z", "z", "defaults", "embed")+" "+strconv.Itoa(r.Intn(1<<30)), true)
+		rec.Op("S", "pogs19 air "+r.PickS("z", "z", "z", "defaults", "embed", "embed2")+" "+strconv.Itoa(r.Intn(1<<30)), true)
+		if i == 0 {
+			rec.Op("S", "pogs19 air big "+strconv.Itoa(Shard), true)
+		}
 	}
 }
